@@ -13,16 +13,14 @@ Pump level: the events delivered for a stream of documents are the concatenation
 the documents, each expanded from an EMPTY anchor table (anchors are not visible across documents).
 Entry level: batch vs iterator, recovery after errors, termination.
 
-Finding: `read_iter_terminates` as originally stated ("for every stream and type") is FALSE of the model:
-`deserialize_unit` and `deserialize_option` accept a container-end event without consuming it, so the
-iterator yields the same item for ever once such an event sits in the look-ahead at a document root
-(`read_iter_terminates_counterexample`: a stray `]`, read as `()`).  This is not only an artefact of
-ill-formed item lists: on the well-formed document `[[]]` read as `Option<()>`-like (`option (tuple [])`)
-the zero-length tuple visitor leaves the outer `]` to the next `next` call, which loops in the same way
-(`read_iter_wellformed_nonterminating`).  The statement is kept as `read_iter_terminates_Full : Prop` and
-proved as `read_iter_terminates_partial` with the visible hypothesis `acceptsEnd ty = false`
-(Lemmas/C11_Root.lean: the target is not `()` / `Option<_>`, possibly behind newtypes), for every stream
-and every pump state.
+History: `read_iter_terminates` was FALSE of the earlier model — `deserialize_unit` / `deserialize_option`
+accept a container-end event without consuming it, so the iterator (and the batch loop) yielded the same
+item for ever once such an event was peeked at a document root: a stray `]` read as `()`, and also the
+well-formed document `[[]]` read as `Option<()>`-like (`option (tuple [])`).  Confirmed on the
+implementation and repaired: a container end where a document should start is now the error
+`UnexpectedSequenceEnd` / `UnexpectedMappingEnd` (the iterator then recovers at the next document).
+`read_iter_terminates` is proved as originally stated (every type, stream and pump state); the two former
+witnesses are kept as regression `example`s below.
 -/
 namespace SaphyrVerif.Props.C11
 open SaphyrVerif SaphyrVerif.Scalars SaphyrVerif.Pump SaphyrVerif.Spec SaphyrVerif.De SaphyrVerif.Entry
@@ -138,54 +136,11 @@ theorem single_rejects_trailing_event (c c' : Cur) (e : Ev) (h : c.peek = .ok (s
   rw [h]
   exact ⟨_, rfl⟩
 
-/-- (F) read_iter_terminates as originally stated — "for every stream and type" (false: see
-`read_iter_terminates_counterexample`): the iterator's item list stabilises. -/
-def read_iter_terminates_Full : Prop :=
-  ∀ (cfg : Cfg) (ty : Ty) (p : Pump) (items : List RawItem),
-    ∃ n, ∀ k, iterLoop cfg ty (n + k) p items [] = iterLoop cfg ty n p items []
-
-/-- (F) counterexample to `read_iter_terminates_Full`: a stray sequence-end event at the document root, read
-as `()`.  `deserialize_unit` (like `deserialize_option`) accepts a container-end event WITHOUT consuming
-it, so every `next` of the iterator yields `Ok(())` again: with fuel `m + 1` the list has `m + 1` items. -/
-theorem read_iter_terminates_counterexample : ¬ read_iter_terminates_Full := by
-  intro h
-  obtain ⟨n, hn⟩ := h {} .unit Lemmas.C11.cexPump [.ev .seqEnd 1]
-  have h1 := congrArg List.length (hn 2)
-  have h2 := congrArg List.length (hn 1)
-  rw [show n + 2 = (n + 1) + 1 by omega, Lemmas.C11.cex_loop0] at h1
-  rw [Lemmas.C11.cex_loop0] at h2
-  omega
-
-/-- (F) well-formedness of the stream does not rescue the original statement: on the single well-formed
-document `[[]]`, read as `Option<()>`-like (`option (tuple [])`), the iterator never stops either (the
-zero-length tuple visitor returns after each `[`; the third `next` peeks the outer `]`, which
-`deserialize_option` turns into `None` without consuming it). -/
-theorem read_iter_wellformed_nonterminating :
-    ¬ ∃ n, ∀ k, iterLoop {} (.option (.tuple [])) (n + k) (initPump Lemmas.C11.cexLimits)
-          (streamOf [(.seq 0 none 10 19 [.seq 0 none 11 12 []], false, 2, 3)] 1 9) [] =
-        iterLoop {} (.option (.tuple [])) n (initPump Lemmas.C11.cexLimits)
-          (streamOf [(.seq 0 none 10 19 [.seq 0 none 11 12 []], false, 2, 3)] 1 9) [] := by
-  have hitems : streamOf [(.seq 0 none 10 19 [.seq 0 none 11 12 []], false, 2, 3)] 1 9 = Lemmas.C11.wfItems := by
-    simp [streamOf, docsStream, itemsOf, itemsOfL, Lemmas.C11.wfItems]
-  rw [hitems]
-  rintro ⟨n, hn⟩
-  have h3 := congrArg List.length (hn 3)
-  have h4 := congrArg List.length (hn 4)
-  have e3 := Lemmas.C11.wf_loop0 n
-  have e4 := Lemmas.C11.wf_loop0 (n + 1)
-  rw [show n + 1 + 3 = n + 4 by omega] at e4
-  change (iterLoop {} Lemmas.C11.wfTy (n + 3) Lemmas.C11.cexPump Lemmas.C11.wfItems []).length = _ at h3
-  change (iterLoop {} Lemmas.C11.wfTy (n + 4) Lemmas.C11.cexPump Lemmas.C11.wfItems []).length = _ at h4
-  omega
-
-/-- (T) read_iter_terminates (partial: the target type must not be one that accepts a container-end event
-without consuming it, i.e. not `()` / `Option<_>` possibly behind newtypes — `acceptsEnd ty = false`): the
-iterator's item list stabilises — beyond some number of `next` calls it only returns `None` (the list no
-longer grows), for every stream, every pump state and every such type. -/
-theorem read_iter_terminates_partial (cfg : Cfg) (ty : Ty) (p : Pump) (items : List RawItem)
-    (hty : Lemmas.C11.acceptsEnd ty = false) :
+/-- (T) read_iter_terminates: the iterator's item list stabilises — beyond some number of `next` calls it
+only returns `None` (the list no longer grows), for every stream and type. -/
+theorem read_iter_terminates (cfg : Cfg) (ty : Ty) (p : Pump) (items : List RawItem) :
     ∃ n, ∀ k, iterLoop cfg ty (n + k) p items [] = iterLoop cfg ty n p items [] := by
-  obtain ⟨n, hn⟩ := Lemmas.C11.iter_stabilises cfg ty hty p items
+  obtain ⟨n, hn⟩ := Lemmas.C11.iter_stabilises cfg ty p items
   exact ⟨n, fun k => hn k []⟩
 
 set_option linter.unusedVariables false in
@@ -207,15 +162,35 @@ example : (pumpAll 100 (initPump lim) (streamOf [(docA, false, 2, 3), (docA, tru
 example : (pumpAll 100 (initPump lim) (streamOf [(docA, false, 2, 3), (docB, true, 4, 5)] 1 9) []).map (·.2.1) = some (some (.unknownAnchor 31)) := by
   decide
 
+-- (E) regression, former witness 1 against termination: a stray `]` at the document root read as `()` — one
+-- error item, then the iterator stops (before the repair: `Ok(())` for ever)
+example : iterLoop {} .unit 7 (initPump Lemmas.C11.cexLimits) [.ev .seqEnd 1] [] =
+    [.error ⟨"UnexpectedSequenceEnd", 1, 0⟩] := Lemmas.C11.cex_now 6
+example : readIter {} .unit (initPump Lemmas.C11.cexLimits) [.ev .seqEnd 1] =
+    [.error ⟨"UnexpectedSequenceEnd", 1, 0⟩] := Lemmas.C11.cex_now 10
+
+-- (E) regression, former witness 2: the well-formed document `[[]]` read as `Option<()>`-like — two values, then
+-- the outer `]` is an error item and the iterator stops (before the repair: `Ok(None)` for ever); the batch
+-- entry point returns that error
+example : iterLoop {} (.option (.tuple [])) 50 (initPump Lemmas.C11.cexLimits)
+      (streamOf [(.seq 0 none 10 19 [.seq 0 none 11 12 []], false, 2, 3)] 1 9) [] =
+    [.ok (.some (.seq [])), .ok (.some (.seq [])), .error ⟨"UnexpectedSequenceEnd", 19, 0⟩] :=
+  Lemmas.C11.wf_now 47
+example : readIter {} (.option (.tuple [])) (initPump Lemmas.C11.cexLimits)
+      (streamOf [(.seq 0 none 10 19 [.seq 0 none 11 12 []], false, 2, 3)] 1 9) =
+    [.ok (.some (.seq [])), .ok (.some (.seq [])), .error ⟨"UnexpectedSequenceEnd", 19, 0⟩] :=
+  Lemmas.C11.wf_now 15
+example : fromMultiple {} (.option (.tuple [])) (initPump Lemmas.C11.cexLimits)
+      (streamOf [(.seq 0 none 10 19 [.seq 0 none 11 12 []], false, 2, 3)] 1 9) =
+    .error ⟨"UnexpectedSequenceEnd", 19, 0⟩ := Lemmas.C11.wf_batch_now
+
 #print axioms docs_pump_eq_concat
 #print axioms alias_to_earlier_document_is_error
 #print axioms pump_doc_state_reset
 #print axioms skip_to_next_document_resets
 #print axioms skip_stops_at_scan_error
 #print axioms single_rejects_trailing_event
-#print axioms read_iter_terminates_counterexample
-#print axioms read_iter_wellformed_nonterminating
-#print axioms read_iter_terminates_partial
+#print axioms read_iter_terminates
 #print axioms iter_eq_batch
 
 end SaphyrVerif.Props.C11
